@@ -1007,6 +1007,10 @@ class Assembly(composites.Composite):
                 if heightHere / b.getHeight() > EPS:
                     blocksHere.append((b, heightHere))
 
+        if not allMeshPoints:
+            # no block touches the window (it lies wholly above or below the assembly)
+            return blocksHere
+
         totalHeight = 0.0
         allMeshPoints = sorted(allMeshPoints)
         # The expected height snaps to the minimum height that is requested
